@@ -100,7 +100,7 @@ func (vc *VC) wf(v Val, st *State) Term {
 		case *types.Slice:
 			if l.Comp == "arr" {
 				ln, cp := v.C[i+1], v.C[i+2]
-				cs = append(cs, sx("<=", "0", ln), sx("<=", ln, cp), sx("<=", "0", c), sx("<=", cp, maxLenT),
+				cs = append(cs, sx("<=", "0", ln), sx("<=", ln, cp), sx("<=", cp, maxLenT),
 					implies(eq(c, "0"), eq(cp, "0")), sx("<", sx("+", c, cp), alloc))
 			}
 		case *types.Pointer, *types.Map, *types.Chan, *types.Signature:
@@ -151,7 +151,7 @@ func (vc *VC) ptrVal(pl *Place) Val {
 		v.C = []Term{pl.Addr}
 	} else if _, isArr := pl.Cur.Underlying().(*types.Array); isArr {
 		// pointer to an embedded array: the address of its element 0
-		v.C = []Term{add(pl.Addr, itoa(embOffset(pl.Root, pl.Path)))}
+		v.C = []Term{adr(pl.Addr, itoa(embOffset(pl.Root, pl.Path)))}
 	} else {
 		v.C = []Term{"<interior:" + pl.Path + ">"}
 	}
@@ -224,7 +224,7 @@ func (vc *VC) storeTo(pl *Place, v Val, st *State, fr *Frame) {
 		arrs, _ := embeddedArrays(pl.Root)
 		for _, a := range arrs {
 			if pl.Path == "" || a.Path == pl.Path || strings.HasPrefix(a.Path, pl.Path+".") {
-				vc.havocElems(a.Elem, add(pl.Addr, itoa(a.Off)), itoa(a.N), st, fr)
+				vc.havocElems(a.Elem, adr(pl.Addr, itoa(a.Off)), itoa(a.N), st, fr)
 			}
 		}
 	}
@@ -259,7 +259,7 @@ func (vc *VC) stringConst(s string, st *State) Val {
 		vc.regFam("E$uint8", "Int")
 		h0 := vc.declare("E$uint8@0", "(Array Int Int)")
 		for i := 0; i < len(s) && i < 64; i++ {
-			vc.assume(eq(sel(h0, itoa(base+int64(i))), itoa(int64(s[i]))))
+			vc.assume(eq(sel(h0, adr(itoa(base), itoa(int64(i)))), itoa(int64(s[i]))))
 		}
 		if len(s) > 64 {
 			vc.note("string constant of length %d: only the first 64 bytes are modelled", len(s))
@@ -516,7 +516,12 @@ func (vc *VC) run(fn *ssa.Function, args []Val, freeVars []Val, st *State, reach
 		if i < len(ls) {
 			srt = ls[i].Sort
 		}
-		res.C = append(res.C, vc.define(fr.prefix+".ret", srt, t))
+		if len(rets) == 1 && !fr.top {
+			// single return: keep the term's structure (addresses stay matchable)
+			res.C = append(res.C, t)
+		} else {
+			res.C = append(res.C, vc.define(fr.prefix+".ret", srt, t))
+		}
 	}
 	if fr.top {
 		for _, c := range res.C {
@@ -934,6 +939,10 @@ func (fr *Frame) checkEnsuresAt(ret *ssa.Return, res Val, st *State, reach Term)
 	env := fr.specEnvExit(st, res)
 	for _, cl := range fr.contract.Clauses {
 		if cl.Kind != "ensures" {
+			continue
+		}
+		if cl.Thorough && vc.eng.tier != "thorough" {
+			vc.eng.deferred[vc.fnName+"#ensures:"+fr.clauseSite(cl, "")] = true
 			continue
 		}
 		t := env.boolOf(cl.Expr)
